@@ -66,6 +66,18 @@ def find(tree, qual):
     return node
 
 
+CSI_TEXT = """(* CSIIndex.offsets: bins = per contig the (bin number, loffset) pairs in on-disk order *)
+Definition gen_offsets_csi (min_shift depth : Z) (bins : list (list (Z * Z))) : res (list (Z * (Z * Z))) :=
+  let pseudo_bin := bin_limit min_shift depth + 1 in
+  bind (mapM_i (fun contig_index bins =>
+          bind (mapM (fun b => bind (get_first_locus_in_bin depth min_shift (fst b)) (fun position => Ok (snd b, position)))
+                     (filter (fun b => negb (fst b =? pseudo_bin)) bins))
+               (fun keyed_bins => Ok (map (fun lp => (get_file_offset (fst lp), (contig_index, snd lp))) ({sort} keyed_bins))))
+        0 bins)
+       (fun per_contig => Ok (concat per_contig)).
+"""
+
+
 def csi(tree):
     fn = find(tree, "CSIIndex.offsets")
     b = strip(fn.body)
@@ -79,12 +91,20 @@ def csi(tree):
     if not (isinstance(loop, ast.For) and src(loop.target) == "(contig_index, bins)" and src(loop.iter) == "enumerate(self.bins)" and not loop.orelse):
         raise Unsupported("CSIIndex.offsets: contig loop: " + src(loop)[:80])
     lb = strip(loop.body)
+    want = "keyed_bins = [(bin.loffset, get_first_locus_in_bin(self, bin.bin)) for bin in bins if bin.bin != pseudo_bin]"
+    if not lb or src(lb[0]) != want:
+        raise Unsupported("CSIIndex.offsets: keyed bins: " + (src(lb[0])[:160] if lb else "-"))
+    if len(lb) == 5 and isinstance(lb[1], ast.Assign) and isinstance(lb[1].targets[0], ast.Name) and src(lb[1].value) == "sorted(keyed_bins)":
+        # the same three columns appended with extend() over the sorted list
+        o = lb[1].targets[0].id
+        ext = sorted(src(x) for x in lb[2:])
+        if ext == sorted([f"file_offsets.extend((get_file_offset(loffset) for loffset, _ in {o}))", f"contig_indexes.extend([contig_index] * len({o}))",
+                          f"positions.extend((position for _, position in {o}))"]):
+            return CSI_TEXT.format(sort="py_sorted_pairs")
+        raise Unsupported("CSIIndex.offsets: extend form: " + " | ".join(ext)[:200])
     if len(lb) != 2:
         raise Unsupported("CSIIndex.offsets: contig loop body has %d statements" % len(lb))
     keyed, inner = lb
-    want = "keyed_bins = [(bin.loffset, get_first_locus_in_bin(self, bin.bin)) for bin in bins if bin.bin != pseudo_bin]"
-    if src(keyed) != want:
-        raise Unsupported("CSIIndex.offsets: keyed bins: " + src(keyed)[:160])
     if not (isinstance(inner, ast.For) and src(inner.target) == "(loffset, position)" and not inner.orelse):
         raise Unsupported("CSIIndex.offsets: inner loop")
     it = src(inner.iter)
@@ -95,16 +115,7 @@ def csi(tree):
     ib = [src(s) for s in strip(inner.body)]
     if ib[0] != "file_offset = get_file_offset(loffset)" or sorted(ib[1:]) != ["contig_indexes.append(contig_index)", "file_offsets.append(file_offset)", "positions.append(position)"]:
         raise Unsupported("CSIIndex.offsets: inner body: " + " | ".join(ib)[:160])
-    return f"""(* CSIIndex.offsets: bins = per contig the (bin number, loffset) pairs in on-disk order *)
-Definition gen_offsets_csi (min_shift depth : Z) (bins : list (list (Z * Z))) : res (list (Z * (Z * Z))) :=
-  let pseudo_bin := bin_limit min_shift depth + 1 in
-  bind (mapM_i (fun contig_index bins =>
-          bind (mapM (fun b => bind (get_first_locus_in_bin depth min_shift (fst b)) (fun position => Ok (snd b, position)))
-                     (filter (fun b => negb (fst b =? pseudo_bin)) bins))
-               (fun keyed_bins => Ok (map (fun lp => (get_file_offset (fst lp), (contig_index, snd lp))) ({sort} keyed_bins))))
-        0 bins)
-       (fun per_contig => Ok (concat per_contig)).
-"""
+    return CSI_TEXT.format(sort=sort)
 
 
 def tbi(tree):
